@@ -39,7 +39,7 @@ impl MessageCursor {
             let amount = usize::min(self.data.len() - self.index, dest.len());
             if amount > 0 {
                 let dest_slice = &mut dest[..amount];
-                let source_slice = &self.data[..amount];
+                let source_slice = &self.data[self.index..self.index + amount];
 
                 dest_slice.copy_from_slice(source_slice);
 
@@ -56,7 +56,11 @@ impl MessageCursor {
 pub(crate) struct WebsocketStreamWrapper<T> where T : Read + Write {
     stream: WebSocket<T>,
     current_read_message: Option<MessageCursor>,
-    final_error: Option<tungstenite::error::Error>
+    final_error: Option<tungstenite::error::Error>,
+
+    // true when frames accepted by write() are still queued inside the websocket because the
+    // underlying stream could not take them yet
+    pending_flush: bool
 }
 
 impl<T> WebsocketStreamWrapper<T> where T : Read + Write {
@@ -64,13 +68,33 @@ impl<T> WebsocketStreamWrapper<T> where T : Read + Write {
         WebsocketStreamWrapper {
             stream,
             current_read_message: None,
-            final_error: None
+            final_error: None,
+            pending_flush: false
+        }
+    }
+
+    // Pushes frames that were queued by an earlier write towards the underlying stream
+    fn try_pending_flush(&mut self) {
+        if self.pending_flush {
+            match self.stream.flush() {
+                Ok(()) => { self.pending_flush = false; }
+                Err(err) => {
+                    if !is_tungstenite_error_would_block(&err) {
+                        self.pending_flush = false;
+                        if self.final_error.is_none() {
+                            self.final_error = Some(err);
+                        }
+                    }
+                }
+            }
         }
     }
 }
 
 impl<T> Read for WebsocketStreamWrapper<T> where T : Read + Write {
     fn read(&mut self, buf: &mut [u8]) -> std::io::Result<usize> {
+        self.try_pending_flush();
+
         let mut bytes_read = 0;
 
         while bytes_read < buf.len() {
@@ -105,7 +129,7 @@ impl<T> Read for WebsocketStreamWrapper<T> where T : Read + Write {
             }
 
             if let Some(current_message) = &mut self.current_read_message {
-                bytes_read += current_message.read(buf);
+                bytes_read += current_message.read(&mut buf[bytes_read..]);
             }
 
             if bytes_read < buf.len() {
@@ -128,13 +152,35 @@ impl<T> Write for WebsocketStreamWrapper<T> where T : Read + Write {
                 Ok(buf.len())
             }
             Err(err) => {
-                Err(map_tungstenite_error_to_io_error(err))
+                if is_tungstenite_error_would_block(&err) {
+                    // The frame has already been queued inside the websocket; only pushing it to
+                    // the underlying stream would block.  Reporting WouldBlock here would make the
+                    // caller submit the same bytes again and they would go out twice.
+                    self.pending_flush = true;
+                    Ok(buf.len())
+                } else {
+                    Err(map_tungstenite_error_to_io_error(err))
+                }
             }
         }
     }
 
     fn flush(&mut self) -> std::io::Result<()> {
-        self.stream.flush().map_err(|err| { map_tungstenite_error_to_io_error(err) })
+        match self.stream.flush() {
+            Ok(()) => {
+                self.pending_flush = false;
+                Ok(())
+            }
+            Err(err) => {
+                if is_tungstenite_error_would_block(&err) {
+                    // queued frames are pushed out by the following reads and writes
+                    self.pending_flush = true;
+                    Ok(())
+                } else {
+                    Err(map_tungstenite_error_to_io_error(err))
+                }
+            }
+        }
     }
 }
 
